@@ -374,15 +374,26 @@ def run(ctx):  # noqa: C901, PLR0912, PLR0915
     if set(made) != {'client', 'server'}:
         raise AnalysisError(f'C19.R5: client and server SSLContext constructions not found in mk_ssl_contexts ({made})')
     for role, ctxname in sorted(made.items()):
+        wit5 = None
         vm = [n for n in g.real_nodes() if n.kind == 'stmt' and isinstance(n.stmt, ast.Assign) and
               unparse(n.stmt.targets[0]) == f'{ctxname}.verify_mode']
         lv = [n for n, c in g.nodes_calling('load_verify_locations') if unparse(c.func.value) == ctxname
               and c.args and unparse(c.args[0]) == 'ca_file']
         ok = len(vm) == 1 and unparse(vm[0].stmt.value) == 'ssl.CERT_REQUIRED' and len(lv) == 1 and \
-            ('ca_file', True) in g.facts_at(vm[0]) and ('ca_file', True) in g.facts_at(lv[0]) and \
-            all(t == 'ca_file' or t.startswith('cyphers') or 'exists()' in t for t, _p in g.facts_at(vm[0]))
+            ('ca_file', True) in g.facts_at(vm[0]) and ('ca_file', True) in g.facts_at(lv[0])
+        if ok:
+            # path condition: whenever the function returns normally and a CA file was given, BOTH statements were executed -
+            # no other condition (cipher string given or not, ...) may decide about peer verification
+            from engine.pathcond import worlds_of
+            w = worlds_of(g, extra_atoms=('ca_file',))
+            with_ca = w.cond(g.exit) & w.mask('ca_file')
+            missed = with_ca & ~(w.cond(vm[0]) & w.cond(lv[0])) & w.all
+            ok = missed == 0
+            if not ok:
+                wit5 = {'returns with a CA file but without verification when': w.describe(missed)}
         ctx.ob('C19.R5', f'{role}_ssl_context', ok,
-               f'{role} context: with a CA file verify_mode is CERT_REQUIRED and the CA is loaded for verification', fi=mc)
+               f'{role} context: with a CA file verify_mode is CERT_REQUIRED and the CA is loaded for verification', fi=mc,
+               witness=wit5)
     ret = [n for n in walk_no_nested(mc.node) if isinstance(n, ast.Return)]
     ok = len(ret) == 1 and isinstance(ret[0].value, ast.Call) and call_name(ret[0].value) == 'SSLContextContainer' and \
         {k.arg: unparse(k.value) for k in ret[0].value.keywords} == {'client_context': made['client'],
